@@ -1838,7 +1838,6 @@ func hintString(h map[string]bool) string {
 // KnownCalleeStackLeak: see known_findings.json.
 const KnownCalleeStackLeak = "items-on-stack-of-frame-unloaded-by-exception-stay-counted"
 
-
 func genAware(t *rapid.T) Case {
 	script, units, fin, hints := genAwareScript(t)
 	base := rapid.SampledFrom(baseFees).Draw(t, "basefee")
